@@ -23,6 +23,8 @@ McDurs == ("1s" :> 1) @@ ("2s" :> 2)
 McTimes == <<>>
 McQStr == {"?x", "?y", "?q"}
 McBadJs == {"syntax error("}
+McActs == [c \in {"1", "2", "3", "4", "5"} |-> [kind |-> "num", tag |-> c]]
+McCondCodes == <<>>
 
 O1(k, v) == Obj(k :> v)
 O2(k1, v1, k2, v2) == Obj((k1 :> v1) @@ (k2 :> v2))
